@@ -81,10 +81,23 @@ def features(case_graphs):
     return len(nonempty), shared_triple, bnode_named, shared_bnode
 
 
+def list_cell_in_several_graphs(graphs):
+    """class of known finding C06-jsonld-list-cell-in-several-graphs: a blank node with rdf:first in some graph that occurs in >=2 graphs"""
+    first = gt.RDFNS + "first"
+    cells = {tuple(t[0]) for _, ts in graphs for t in ts if t[1][1] == first and t[0][0] == "b"}
+    for c in cells:
+        n = sum(1 for _, ts in graphs if any(tuple(x) == c for t in ts for x in (t[0], t[2])))
+        if n >= 2:
+            return True
+    return False
+
+
 def run(case):
     out = Out()
     fmt = case["fmt"]
     n, shared_triple, bnode_named, shared_bnode = features(case["graphs"])
+    if K.skip("C06-jsonld-list-cell-in-several-graphs", fmt == "json-ld" and list_cell_in_several_graphs(case["graphs"]), out):
+        return out
     with warnings.catch_warnings():
         warnings.simplefilter("ignore")
         ds = build(case["graphs"])
@@ -164,6 +177,30 @@ def dataset_graphs(draw, bnodes=True, max_graphs=4):
     graphs = []
     for nm in chosen:
         graphs.append([nm, draw(st.lists(tri, max_size=5, unique_by=repr))])
+    if bnodes and draw(st.integers(0, 3)) == 0:
+        # a collection whose cells are described in one graph and used from another (or described in two graphs): the cell is one
+        # blank node of the dataset, whichever graph mentions it
+        R = gt.RDFNS
+        cells = [["b", "c0"], ["b", "c1"]]
+        n = draw(st.integers(1, 2))
+        lst = []
+        for i in range(n):
+            lst.append([cells[i], ["u", R + "first"], draw(st.sampled_from(obj[:4]))])
+            lst.append([cells[i], ["u", R + "rest"], cells[i + 1] if i + 1 < n else ["u", R + "nil"]])
+        ref_t = [["u", "http://ex.org/s1"], ["u", "http://ex.org/list"], cells[0]]
+        where_cells = draw(st.integers(0, len(graphs) - 1))
+        where_ref = draw(st.integers(0, len(graphs) - 1))
+        graphs[where_cells][1].extend(lst)
+        if draw(st.booleans()):
+            graphs[where_ref][1].append(ref_t)
+        if draw(st.integers(0, 2)) == 0:
+            graphs[draw(st.integers(0, len(graphs) - 1))][1].extend(lst)
+        for gpair in graphs:
+            seen, uniq = set(), []
+            for t in gpair[1]:
+                if repr(t) not in seen:
+                    seen.add(repr(t)); uniq.append(t)
+            gpair[1] = uniq
     return graphs
 
 
